@@ -13,3 +13,34 @@ func VerifDeduplicateFragments(fragments []TextFragment) []TextFragment {
 
 // VerifGroupFragments exposes groupFragments (line grouping of GetText).
 func VerifGroupFragments(fragments []TextFragment) [][]TextFragment { return groupFragments(fragments) }
+
+// VerifGetText runs (*Extractor).GetText on the given fragment list.
+func VerifGetText(fragments []TextFragment) string {
+	e := NewExtractor()
+	e.fragments = fragments
+	return e.GetText()
+}
+
+// VerifDetectLineDirection exposes (*Extractor).detectLineDirection.
+func VerifDetectLineDirection(line []TextFragment) Direction {
+	return NewExtractor().detectLineDirection(line)
+}
+
+// VerifReorderFragmentsForReading exposes (*Extractor).reorderFragmentsForReading.
+func VerifReorderFragmentsForReading(line []TextFragment, dir Direction) []TextFragment {
+	return NewExtractor().reorderFragmentsForReading(line, dir)
+}
+
+// VerifLineSpaces reports, for each adjacent pair of the (already reordered)
+// line, the decision of (*Extractor).shouldInsertSpaceSmart with the metrics
+// GetText computes for that line.
+func VerifLineSpaces(ordered []TextFragment, dir Direction) []bool {
+	e := NewExtractor()
+	m := e.calculateLineMetrics(ordered, dir)
+	var out []bool
+	for i := 0; i+1 < len(ordered); i++ {
+		d := calculateHorizontalDistance(ordered[i], ordered[i+1], dir)
+		out = append(out, e.shouldInsertSpaceSmart(ordered[i], ordered[i+1], d, m))
+	}
+	return out
+}
